@@ -9,7 +9,7 @@ use std::collections::{BTreeMap, BTreeSet};
 pub const VALID_KINDS: &[&str] = &[
     "swap_decls", "flip_primitive", "add_property", "append_type", "alias_wrap", "touch", "revert", "move_decl", "toggle_export",
 ];
-pub const FILESET_KINDS: &[&str] = &["move_decl", "retarget_import", "create_file", "delete_file", "add_export_star", "foreign_content", "shadow_file"];
+pub const FILESET_KINDS: &[&str] = &["move_decl", "retarget_import", "create_file", "delete_file", "add_export_star", "foreign_content", "shadow_file", "package_shadow"];
 pub const DAMAGE_KINDS: &[&str] = &["truncate", "drop_line", "stray_token", "unbalance", "garbage"];
 
 /// One run in five uses a synthetic project (seeded type graph) instead of a corpus project.
@@ -601,6 +601,13 @@ pub fn synthetic_project(seed: u64) -> Project {
         }
         extra_keys.push("Mapped: Mapped".into());
     }
+    // a package imported through a bare specifier (node_modules lookup walks up the directories)
+    let bare_pkg = rng.chance(1, 5);
+    if bare_pkg {
+        extra_decls.push("import { PkgId, PkgMeta } from \"shared-types\";".into());
+        extra_decls.push("export type UsesPkg = { id: PkgId; meta?: PkgMeta };".into());
+        extra_keys.push("UsesPkg: UsesPkg".into());
+    }
     let default_expr = n_files >= 2 && rng.chance(1, 5);
     if default_expr {
         extra_decls.push("import Def from \"./m1\";".into());
@@ -741,6 +748,9 @@ pub fn synthetic_project(seed: u64) -> Project {
             src.push_str(&format!("parse.buildParsers<{{ {} }}>();\n", keys.join("; ")));
         }
         files.insert(fname(k), src);
+    }
+    if bare_pkg {
+        files.insert("/p/node_modules/shared-types/index.ts".into(), "export type PkgId = string;\nexport type PkgMeta = { createdBy: PkgId; tags: string[] };\n".into());
     }
     Project {
         id: format!("syn_{:08x}", (seed & 0xffff_ffff) as u32),
